@@ -861,7 +861,12 @@ class Server:
     def increment_output(
         self, messages: list[str], sources: list[BuildSource], is_tty: bool, terminal_width: int
     ) -> dict[str, Any]:
-        status = 1 if messages else 0
+        # Same rule as initialize_fine_grained() and the command line: notes alone are not a failure,
+        # a blocking error is status 2.
+        __, n_notes, __ = count_stats(messages)
+        status = 1 if messages and n_notes < len(messages) else 0
+        if self.fine_grained_manager is not None and self.fine_grained_manager.blocking_error:
+            status = 2
         messages = self.pretty_messages(messages, len(sources), is_tty, terminal_width)
         return {"out": "".join(s + "\n" for s in messages), "err": "", "status": status}
 
